@@ -76,6 +76,13 @@ def purity_and_reports(res, el, label, point):
         if not r1.errors or type(e) is not type(r1.errors[0]) or str(e) != str(r1.errors[0]):
             res.violation('report-mismatch|raising-form', 'validate() raised %s(%s); first reported error is %r' % (exc_class(e), e, errs(r1)[:1]), point, 1)
     want = ['Error: %s' % e for e in r1.errors] + ['Warning: %s' % w for w in r1.warnings]
+    buf0 = io.StringIO()
+    try:
+        el.validate(report_file=buf0)           # the raising form writes the same report
+    except Exception:
+        pass
+    if buf0.getvalue().splitlines() != want:
+        res.violation('report-mismatch|file-object-raising-form', 'report written %r, reported %r' % (buf0.getvalue().splitlines()[:3], want[:3]), point, 1)
     buf = io.StringIO()
     el.validate(report_file=buf, return_errors=True)
     got = buf.getvalue().splitlines()
@@ -169,6 +176,32 @@ def message_unit(v, name, res, reference_mode='standard'):
         res.classes['conforming-invalid'] += 1
         return
     res.classes['conforming-valid'] += 1
+    # a child the structure does not allow, attached and removed again (by remove, by del, by pop), leaves a conforming message
+    fs0 = foreign_for(v, st.declared_children(ref))
+    if fs0:
+        for how in ('remove', 'del', 'pop'):
+            res.evaluations += 1
+            res.enumerated += 1
+            res.states += 1
+            res.transitions += 3
+            try:
+                mm = conform.build_message(v, name, tree, reference=profile)
+                extra = mm.add_segment(fs0)
+                if how == 'remove':
+                    mm.children.remove(extra)
+                elif how == 'del':
+                    delattr(mm, fs0.lower())
+                else:
+                    mm.children.pop(len(mm.children) - 1)
+                r3 = mm.validate(return_errors=True)
+            except Exception as e:
+                res.violation('build-raises|add-then-%s|%s' % (how, exc_class(e)), 'conforming %s (v%s) + %s attached and removed (%s): %s: %s' % (name, v, fs0, how, exc_class(e), e), point, 1)
+                continue
+            if not r3.is_valid:
+                res.violation('conforming-invalid|after-add-then-%s|%s' % (how, norm(errs(r3)[0])), 'conforming instance of %s (v%s) after %s was attached and removed '
+                              'again (%s) does not validate: %s' % (name, v, fs0, how, errs(r3)[:2]), point, 1)
+            else:
+                res.classes['conforming-valid-after-add-and-remove'] += 1
     # single-point mutations, walking the instance
     first_mut = [True]
 
